@@ -118,7 +118,7 @@ static const char *DN[] = {"one_chunk", "one_byte_per_call", "seven_bytes_per_ca
 
 static void campaign() {
     static std::vector<Pattern> P = patterns();
-    int cases = A.thorough() ? 500 : 120; int rungs = A.thorough() ? 9 : 7; // k = 64 .. 4096 (quick) / 16384 (thorough)
+    int cases = A.thorough() ? 800 : 320; int rungs = A.thorough() ? 9 : 7; // k = 64 .. 4096 (quick) / 16384 (thorough)
     rcx::run("work_linear_in_stream_length", vc::mix(A.seed * 251 + A.shard), cases, 60, [&]() -> std::optional<rcx::Fail> {
         // every shard walks its own slice of the pattern table first (so that each pattern is measured on every run), then samples
         static size_t walked = 0; size_t idx; size_t mine = (size_t)A.shard + walked * (size_t)A.nshards;
